@@ -842,11 +842,15 @@ def ref_rule(ctx, am):
     if not src_cls or not tgt_cls:
         raise AnalysisError('%s: formalize does not name the referring and referred metaclass' % loc(fn))
     sc, tc = src_cls[0], tgt_cls[0]
-    r.check(pm.contains('%s.referential_attributes |= set(self.source_keys)' % sc, fn),
+    def adds_all(target, elems):
+        '''target gets every element of elems added: |= set(e), .update(set(e)), .update(e), = target | set(e)'''
+        return any(pm.contains(p_ % (target, elems), fn) for p_ in ('%s |= set(%s)', '%s.update(set(%s))', '%s.update(%s)')) or \
+            pm.contains('%s = %s | set(%s)' % (target, target, elems), fn)
+    r.check(adds_all('%s.referential_attributes' % sc, 'self.source_keys'),
             'referring class records source_keys as referential attributes', fn,
             construct='xtuml.meta:Association.formalize', key='referential_attributes',
             msg='formalize does not add source_keys to the referring class\' referential_attributes')
-    r.check(pm.contains('%s.identifying_attributes |= set(self.target_keys)' % tc, fn),
+    r.check(adds_all('%s.identifying_attributes' % tc, 'self.target_keys'),
             'referred class records target_keys as identifying attributes', fn,
             construct='xtuml.meta:Association.formalize', key='identifying_attributes',
             msg='formalize does not add target_keys to the referred class\' identifying_attributes')
